@@ -595,6 +595,21 @@ def report(prop, results, tier, seed, level, assumptions, trusted, bounded, t0, 
         exit_code = max(exit_code, 1)
     bounded = list(bounded)
     for r in results:
+        for sub in r.get('bounded_multi', []) or []:
+            name = r['unit'] + '.' + sub['name']
+            kf = match_known(known, name, sub.get('failure'))
+            if kf is not None:
+                known_seen.append(kf)
+                lines.append('KNOWN-FINDING: property=%s %s -- %s' % (prop, name, kf.get('what', '')))
+                continue
+            replay = os.path.join('replays', prop, _safe(name) + '.json')
+            with open(os.path.join(OUT, replay), 'w') as fh:
+                json.dump({'property': prop, 'obligation': name, 'verdict': 'bounded stand-in failed on the real code',
+                           'native_witness': _jsonable(sub.get('failure'))}, fh, indent=1)
+            lines.append('VIOLATION property=%s replay=%s' % (prop, replay))
+            violations += 1
+            exit_code = max(exit_code, 1)
+    for r in results:
         b = r.get('bounded')
         if not b:
             continue
@@ -678,12 +693,19 @@ def report(prop, results, tier, seed, level, assumptions, trusted, bounded, t0, 
     return exit_code
 
 
-def match_known(known, name):
+def match_known(known, name, failure=None):
     for k in known:
         if k.get('status') != 'open':
             continue
         pat = k.get('obligation')
         if pat and re.search(pat, name):
+            cond = k.get('only_if')
+            if cond and failure is not None:
+                try:
+                    if not eval(cond, {'__builtins__': {}}, dict(failure)):
+                        continue
+                except Exception:
+                    continue
             return k
     return None
 
